@@ -4,6 +4,7 @@
 pub assume_specification<T: ?Sized, A: std::alloc::Allocator>[ <Box<T, A> as AsRef<T>>::as_ref ](b: &Box<T, A>) -> (r: &T)
     ensures r == &**b;
 
+pub open spec fn cow_view(c: Cow<'_, str>) -> Seq<char> { c@ }
 // numbers <-> text (uninterpreted: "what std's FromStr / Display do")
 pub uninterp spec fn parse_i64(s: Seq<char>) -> Option<i64>;
 pub uninterp spec fn parse_f64(s: Seq<char>) -> Option<f64>;
@@ -127,3 +128,41 @@ pub trait ExReverseSearcher<'a>: std::str::pattern::Searcher<'a> {
 pub assume_specification<P: std::str::pattern::Pattern>[ str::ends_with::<P> ](s: &str, pat: P) -> (r: bool)
     where for<'a> P::Searcher<'a>: std::str::pattern::ReverseSearcher<'a>
     ensures r == b_ends_with(bytes(s@), pattern_bytes(pat));
+
+// String's Hash/Eq agree with its value (vstd lacks this instance): HashMap<String, _> behaves as a map
+pub broadcast axiom fn axiom_string_obeys_key_model()
+    ensures #[trigger] obeys_key_model::<String>();
+
+// Cow<str> derefs to the text it holds.  Verus cannot attach a postcondition to Cow's Deref impl
+// (early-bound impl lifetime), so auto-deref sites are routed through this explicit deref (expression hole).
+#[verifier::external_body]
+pub fn cow_str<'b, 'a>(c: &'b Cow<'a, str>) -> (r: &'b str)
+    ensures r@ == c@,
+{
+    &**c
+}
+
+
+// Display-based to_string: deterministic text of a scalar
+pub broadcast axiom fn axiom_to_string_bool(x: &bool, r: String)
+    requires #[trigger] vstd::string::to_string_from_display_ensures::<bool>(x, r), ensures r@ == bool_to_string(*x);
+pub broadcast axiom fn axiom_to_string_i64(x: &i64, r: String)
+    requires #[trigger] vstd::string::to_string_from_display_ensures::<i64>(x, r), ensures r@ == i64_to_string(*x);
+pub broadcast axiom fn axiom_to_string_u64(x: &u64, r: String)
+    requires #[trigger] vstd::string::to_string_from_display_ensures::<u64>(x, r), ensures r@ == u64_to_string(*x);
+pub broadcast axiom fn axiom_to_string_f64(x: &f64, r: String)
+    requires #[trigger] vstd::string::to_string_from_display_ensures::<f64>(x, r), ensures r@ == f64_to_string(*x);
+pub broadcast axiom fn axiom_to_string_cow<'a>(x: &Cow<'a, str>, r: String)
+    requires #[trigger] vstd::string::to_string_from_display_ensures::<Cow<'a, str>>(x, r), ensures r@ == x@;
+pub broadcast group group_to_string {
+    axiom_to_string_bool, axiom_to_string_i64, axiom_to_string_u64, axiom_to_string_f64, axiom_to_string_cow,
+}
+
+// numeric `as` casts involving f64 (Verus leaves them unspecified): explicit cast functions (expression holes).
+// Rust semantics: int -> float rounds to nearest; float -> int truncates toward zero, saturates, NaN -> 0.
+#[verifier::external_body]
+pub fn cast_i64_f64(x: i64) -> (r: f64) ensures r == i64_as_f64(x) { x as f64 }
+#[verifier::external_body]
+pub fn cast_u64_f64(x: u64) -> (r: f64) ensures r == u64_as_f64(x) { x as f64 }
+#[verifier::external_body]
+pub fn cast_f64_i64(x: f64) -> (r: i64) ensures r == f64_as_i64(x) { x as i64 }
